@@ -318,10 +318,21 @@ def run_case(case, cfg, out):
         def __init__(self, node):
             self.node = node
 
+        pending = ()
+
         def changed(self, originally_changed):
-            # the interface has recomputed its own order when it notifies us
-            check_iface(self.node, 'inside changed() of an observer of %d'
-                        % self.node)
+            # The interface has recomputed its own order when it notifies
+            # us.  An interface that the change reaches along two paths is
+            # notified once per path, and the first time one of its bases
+            # may not have recomputed yet (the order in which dependents
+            # are notified is not specified, and the statement speaks of
+            # the state after the change): only what the LAST notification
+            # of an operation shows is judged, after the operation.
+            n0 = len(out.fails)
+            check_iface(self.node, 'inside the last changed() of an '
+                        'observer of %d' % self.node)
+            self.pending = out.fails[n0:]
+            del out.fails[n0:]
 
     for k, op in enumerate(case['ops']):
         kind = op[0]
@@ -357,7 +368,12 @@ def run_case(case, cfg, out):
             else:
                 nb = list(bases[i])
             bases[i] = nb
+            for ob in observers:
+                ob.pending = ()
             ifaces[i].__bases__ = tuple(ifaces[j] for j in nb) or (Interface,)
             out.tag('rebase')
+            for ob in observers:
+                out.fails.extend(ob.pending)
+                ob.pending = ()
         if not check_all('after op %d %r' % (k, op)) or out.fails:
             return
